@@ -90,11 +90,11 @@ DET1_ACCEPTED = {
 }
 
 spec("C01", "Docstring round trip",
-     [L.rule_scan_end, L.rule_type_ladder, W.rule_rejoin_uniform, L.rule_quote_pair, TB.rule_table_style, N.rule_null2, H.rule_invented_default, H.rule_empty_hole, L.rule_quote_types, coord("rule_coord_docstring", "docstring_parsers.parse_docstring", "emit.docstring"),
+     [L.rule_scan_end, L.rule_type_ladder, W.rule_rejoin_uniform, L.rule_quote_pair, TB.rule_table_style, N.rule_null2, H.rule_invented_default, H.rule_empty_hole, H.rule_prose_gate, scoped(FA.rule_falsy, "falsy_defaults", "defaults_utils.set_default_doc", "defaults_utils.extract_default", "emitter_utils.interpolate_defaults"), L.rule_quote_types, coord("rule_coord_docstring", "docstring_parsers.parse_docstring", "emit.docstring"),
       det3("docstring", "emit.docstring", "docstring_parsers.parse_docstring"), pit("docstring", "emit.docstring", "docstring_parsers.parse_docstring")],
      "Necessary conditions decided on the source: (SCAN-END) the reader's scan for the end of an announced value, followed character by character on sample texts (a number, a decimal, a word, a quoted string with a full stop in it, bracketed values, an expression - with and without prose behind them), hands the conversion ladder the value: not cut at a dot inside quotes or a decimal, not running on into the prose behind a bracketed value; (TYPE-LADDER) every class of default text (integers signed or not, floats in every notation, booleans, quoted and unquoted strings - also those that look like numbers -, expressions) comes out of the reader's conversion ladder with its own Python type and no exception escapes; (REJOIN-UNIFORM) when word-wrapped prose is read back, the lines of a description are re-joined the same way at every line boundary - no decision on what a line contains, no join without a blank - so the prose comes back word for word; (QUOTE-PAIR) what the writer does to a string default when it quotes it the reader's unquote undoes, quoting its own result changes nothing, and unquote leaves a text that is not a quoted pair alone - followed on representatives of the kinds of string a default can be (a word, inner double quote, apostrophe, inner blank, padded, blank, line break, digits); (INVENTED-DEFAULT) on the docstring reader's path a default is only ever taken from the text: every call of a function "
      "that writes the IR key 'default' with something other than what the default reader extracted, when one of its flag parameters is true, passes that flag as a constant "
-     "false; (EMPTY-HOLE) the explicit default '' is written as a value the reader recognises, never as the empty text; (QUOTE-TYPES) the quoting helper, applied to every default whose "
+     "false; (EMPTY-HOLE) the explicit default '' is written as a value the reader recognises, never as the empty text; (PROSE-GATE) whether the default sentence is written does not hang on the parameter having prose: the function that writes the announcement does not leave in front of it because the key 'doc' is missing while a default may be there, and on the docstring writer's path no use of the text it returns stands under a test of the IR's own prose; (FALSY) in the default writer and reader no default value - nor a helper's result that can be that value handed back unchanged - is used as a truth test (None, '', 0 and False are different defaults); (QUOTE-TYPES) the quoting helper, applied to every default whose "
      "declared type mentions str, raises for no kind of default value (str, int, float, bool, None); (TABLE-style) per docstring style, every section header / line marker the emitter writes contains a "
      "detection token of that style, none of a style detected earlier, and is a header the style's scanner splits on; ARG/RETURN token tables are subsets of "
      "TOKENS. (NULL-2) the pending-parameter slot [None, {}] of the ReST parser cannot reach the name post-processing, which dereferences the name, without a "
